@@ -320,3 +320,17 @@ Proof.
 Qed.
 
 End AuthParse.
+
+(* the same for the parser as url::quirks and Url::parse call it (no query encoding override) *)
+Theorem six_from_authority_class_plain dbg hp hpo hd shp shs input u ops : usv_list input ->
+  in_class_authority input = true ->
+  host_agree hpo hd shp shs (class_host_text input) -> host_extra hpo hd shp (class_host_text input) ->
+  parse_url dbg hp hpo hd None None input = POk u ->
+  six_ops ops -> outside_known dbg hp hpo hd u ops ->
+  exists su, spec_basic_url_parse shp input None = BDone su
+    /\ model_api dbg u = Some (spec_api_list shs su)
+    /\ forall n, exists u' su',
+         model_run dbg hp hpo hd u (firstn n ops) = Some u'
+         /\ spec_run shp su (firstn n ops) = Some su'
+         /\ model_api dbg u' = Some (spec_api_list shs su').
+Proof. exact (six_from_authority_class dbg hp hpo hd None shp shs input u ops). Qed.
